@@ -208,6 +208,7 @@ class Result:
         self.prop, self.tier, self.seed = prop, tier, seed
         self.evaluations = 0
         self.distinct = set()
+        self.distinct_extra = 0   # distinct cases counted by the harness itself (e.g. in-process fuzz loops)
         self.samples = []
         self.cover = {}
         self.obs = []
@@ -237,6 +238,7 @@ class Result:
     def merge(self, other):
         self.evaluations += other.evaluations
         self.distinct |= other.distinct
+        self.distinct_extra += other.distinct_extra
         for s in other.samples:
             self.sample(s)
         self.obs.extend(other.obs)
@@ -298,7 +300,7 @@ def finish(res, level="exploration", min_distinct=2):
     cov = {k: _jsonable(v) for k, v in res.cover.items()}
     cov.update({
         "evaluations": res.evaluations,
-        "distinct_nontrivial": len(res.distinct),
+        "distinct_nontrivial": len(res.distinct) + res.distinct_extra,
         "rule": res.rule,
         "samples": _jsonable(res.samples) or ["<none>"],
         "counters": _jsonable(res.counters),
@@ -316,10 +318,10 @@ def finish(res, level="exploration", min_distinct=2):
     with open(os.path.join(EVIDENCE, res.prop + ".json"), "w") as f:
         json.dump(ev, f, indent=1, sort_keys=True)
     print("%s tier=%s seed=%d evaluations=%d distinct=%d violations=%d known_classes=%d wall=%.1fs" % (
-        res.prop, res.tier, res.seed, res.evaluations, len(res.distinct), violations, len(kf_lines), time.time() - res.t0))
+        res.prop, res.tier, res.seed, res.evaluations, len(res.distinct) + res.distinct_extra, violations, len(kf_lines), time.time() - res.t0))
     if violations:
         return EXIT_VIOLATION
-    if res.inconclusive or res.evaluations == 0 or len(res.distinct) < min_distinct:
+    if res.inconclusive or res.evaluations == 0 or len(res.distinct) + res.distinct_extra < min_distinct:
         print("INCONCLUSIVE property=%s %s" % (res.prop, "; ".join(map(str, res.inconclusive[:5])) or "nothing observed"))
         return EXIT_INCONCLUSIVE
     return EXIT_OK
